@@ -414,6 +414,10 @@ def show_atom(a: Atom) -> str:
         return f"{show(a[1])}[{a[2]}]"
     if k == "arr":
         return f"{a[1]}"
+    if k == "comp":
+        return f"[{show(a[1]) if isinstance(a[1], Poly) else a[1]} for {a[2]} in {show(a[3])}]"
+    if k == "sumloop":
+        return f"sum({show(a[1])} for $0 in {show(a[2])})"
     if k == "ptr":
         return f"({a[1]}*){show(a[2])}"
     if k == "join":
